@@ -644,7 +644,7 @@ class Translator:
     def vtable_slots(s):
         """slot index -> set of function names found at that slot (address point + slot) of any (sub-)vtable in the module"""
         if hasattr(s, '_vslots'): return s._vslots
-        slots = {}
+        slots = {}; s._vsub = {}
         for n, (ty, init, const) in s.m.globals.items():
             if not n.startswith('@_ZTV') or init is None or n.startswith('@_ZTVN10__cxxabiv1'): continue
             # initializer: { [k x i8*] [i8* ..., ...], [j x i8*] [...] }: split into arrays by bracket depth
@@ -674,7 +674,15 @@ class Translator:
                 if e: elems.append(e)
                 for idx, e in enumerate(elems):
                     fns = [v for k, v in e if k in ('name', 'qname') and v[0] == '@' and (v in s.m.funcs or v in s.m.decls)]
-                    if fns and idx >= 2: slots.setdefault(idx - 2, set()).add((fns[0], n))
+                    if fns and idx >= 2: slots.setdefault(idx - 2, set()).add((fns[0], n)); s._vsub.setdefault((n, arrays.index(arr)), {})[idx - 2] = fns[0]
+        # harness-supplied entries: a global pointer-to-member constant  vx_vslot_<fn> = &Class::method  ({ i64 1 + 8*slot, i64 0 } in the
+        # Itanium ABI) adds <fn> as a target of virtual calls through that slot (for objects of classes whose vtable is not in the closure)
+        for n, (ty, init, const) in s.m.globals.items():
+            if not n.startswith('@vx_vslot_') or init is None: continue
+            ints = [int(v) for k, v in init if k == 'int']
+            fn = '@' + n[len('@vx_vslot_'):]
+            if ints and ints[0] % 8 == 1 and (fn in s.m.funcs or fn in s.m.decls):
+                slots.setdefault((ints[0] - 1) // 8, set()).add((fn, '@vx_hint'))
         s._vslots = slots
         return slots
 
@@ -782,6 +790,55 @@ class Translator:
             acc = {}; walk(n, 0, acc, set()); anc[n] = acc
         return anc
 
+    def vtable_points(s):
+        """(vtable global, sub-vtable index, offset-to-top, most-derived typeinfo) for every address point in the closure (no virtual bases)"""
+        pts = []
+        for n, (ty, init, const) in s.m.globals.items():
+            if not n.startswith('@_ZTV') or init is None or n.startswith('@_ZTVN10__cxxabiv1'): continue
+            ti = '@_ZTI' + n[len('@_ZTV'):]
+            if ti not in s.m.globals: continue
+            depth = 0; cur = None; arrays = []; toks = list(init); i = 0
+            while i < len(toks):
+                k, v = toks[i]
+                if v == '[':
+                    depth += 1
+                    if depth == 1 and i + 2 < len(toks) and toks[i + 2][1] == 'x': pass
+                    elif depth == 1: cur = []; arrays.append(cur)
+                elif v == ']':
+                    if depth == 1: cur = None
+                    depth -= 1
+                elif cur is not None and depth >= 1: cur.append((k, v))
+                i += 1
+            for ai, arr in enumerate(arrays):
+                elems = []; e = []; pd = 0
+                for k, v in arr:
+                    if v == '(': pd += 1
+                    elif v == ')': pd -= 1
+                    if v == ',' and pd == 0: elems.append(e); e = []
+                    else: e.append((k, v))
+                if e: elems.append(e)
+                if len(elems) < 2: continue
+                ints = [int(v) for k, v in elems[0] if k == 'int' ]
+                top = 0
+                if any(v == 'inttoptr' for k, v in elems[0]) and ints: top = ints[0]
+                elif not any(v == 'null' for k, v in elems[0]): continue
+                if not any(v == ti for k, v in elems[1]): continue        # a construction vtable / VTT: not an ordinary address point
+                pts.append((n, ai, top, ti))
+        return pts
+
+    def emit_dyncast(s):
+        """dynamic_cast with the dispatch on the vtable pointer made explicit: in each branch the most-derived class and the offset-to-top are
+        constants, so the result is `src + constant` (a symbolic pointer plus a value loaded from a vtable costs a byte-level update of the
+        whole object at every store through the result)"""
+        out = ['static uint8_t* __vx_dynamic_cast(uint8_t* src, uint8_t* src_ti, uint8_t* dst_ti, int64_t hint) {',
+               '  uint8_t** vptr = *(uint8_t***)src; int found = 0; int64_t off;']
+        for n, ai, top, ti in s.vtable_points():
+            out.append('  if (vptr == (uint8_t**)&%s.f%d.a[2]) { off = __vx_base_off((void*)&%s, (void*)dst_ti, &found); return found ? src + (%d) + off : (uint8_t*)0; }' % (gname(n), ai, gname(ti), top))
+        out.append('  { int64_t off_to_top = (int64_t)(intptr_t)vptr[-2]; uint8_t* md_ti = vptr[-1]; uint8_t* md = src + off_to_top;')
+        out.append('    off = __vx_base_off((void*)md_ti, (void*)dst_ti, &found); return found ? md + off : (uint8_t*)0; }')
+        out.append('}')
+        return '\n'.join(out) + '\n'
+
     def ti_id(s, name):
         if name not in s.ti_ids: s.ti_ids[name] = len(s.ti_ids) + 2   # 1 is catch(...)
         return s.ti_ids[name]
@@ -860,7 +917,10 @@ class Translator:
                 elif n == '@__dso_handle':
                     gdecl.append('extern %s %s;' % (ct, gname(n)))   # provided by the C runtime natively; only its address is used
                 else:
-                    gdecl.append('%s %s;' % (ct, gname(n)))   # external data: zero-initialised object of its type
+                    # external data (defined in a TU that is not part of the closure): an `extern` declaration without definition is an
+                    # object of ARBITRARY content for CBMC (sound over-approximation; a harness whose verdict depends on the value must
+                    # add the defining TU).  The native builds need a definition.
+                    gdecl.append('#ifdef VX_NATIVE\n%s %s;\n#else\nextern %s %s;\n#endif' % (ct, gname(n), ct, gname(n)))
             else:
                 gdecl.append('%s%s %s;' % ('', ct, gname(n)))
                 gdef.append((n, ty, init, const))
@@ -877,7 +937,7 @@ class Translator:
         out += ginit
         out.append(s.emit_rtti())
         out += stubs
-        out.append(DYNCAST)
+        out.append(s.emit_dyncast())
         out += s.rtbodies
         out += funcs
         # destructor of a caught exception object: explicit dispatch over the destructors passed to __cxa_throw anywhere in the closure
@@ -1407,7 +1467,8 @@ class Translator:
                 if slot is not None:
                     key = s.loose_key(fty)
                     shape = [(c, vt) for c, vt in s.vtable_slots().get(slot, ()) if s.loose_key(s.m.funcs[c].ftype if c in s.m.funcs else s.m.decls[c]) == key]
-                    cands = sorted(set(c for c, vt in shape if s.class_compatible(vt, fty)))
+                    cands = s.precise_cands(slot, fty, key)
+                    if not cands: cands = sorted(set(c for c, vt in shape if s.class_compatible(vt, fty)))
                     if not cands: cands = sorted(set(c for c, vt in shape))     # llvm-link merges isomorphic class types: the static class may be a stand-in
                     if cands:
                         s.devirt = getattr(s, 'devirt', 0) + 1
@@ -1442,6 +1503,37 @@ class Translator:
             if not quiet and not nounwind_site:
                 out.append('if (__vx_pending) return %s;' % s.retzero)
         return out
+
+    def static_ti(s, fty):
+        if not fty.params or not isinstance(fty.params[0], PtrT) or not isinstance(fty.params[0].to, NamedT): return None
+        nm = fty.params[0].to.name.strip('%').strip('"')
+        mm = re.fullmatch(r'(?:class|struct)\.([\w:]+?)(?:\.\d+)?', nm)
+        if not mm: return None
+        parts = mm.group(1).split('::')
+        mang = ''.join('%d%s' % (len(p), p) for p in parts)
+        return '@_ZTI' + (('N' + mang + 'E') if len(parts) > 1 else mang)
+
+    def precise_cands(s, slot, fty, key):
+        """targets of a virtual call through slot `slot` on a pointer of static class S: for every class C in the closure that has S as a
+        (non-virtual) base at offset o, the entry at that slot of the sub-vtable of C whose offset-to-top is -o.  None when S is unknown."""
+        sti = s.static_ti(fty)
+        if not hasattr(s, '_anc'): s._anc = s.typeinfo_tables()
+        if sti is None or sti not in s._anc: return None
+        s.vtable_slots()
+        if not hasattr(s, '_vpts'): s._vpts = s.vtable_points()
+        out = set(); seen_class = False
+        for n, ai, top, ti in s._vpts:
+            acc = s._anc.get(ti)
+            if not acc or sti not in acc: continue
+            seen_class = True
+            if -acc[sti] != top: continue
+            fn = s._vsub.get((n, ai), {}).get(slot)
+            if fn is None: continue
+            if s.loose_key(s.m.funcs[fn].ftype if fn in s.m.funcs else s.m.decls[fn]) == key: out.add(fn)
+        # harness-supplied targets for raw objects
+        for c, vt in s.vtable_slots().get(slot, ()):
+            if vt == '@vx_hint' and s.loose_key(s.m.funcs[c].ftype if c in s.m.funcs else s.m.decls[c]) == key: out.add(c)
+        return sorted(out) if seen_class or out else None
 
     def class_compatible(s, vtable, fty):
         """the class owning `vtable` must derive from (or be) the static class of `this` at the call site, when both are known"""
